@@ -30,12 +30,13 @@ class Models(Simd):
         R(r"as core::iter::Iterator>::step_by$", self.m_step_by)
         R(r"as core::iter::Iterator>::filter::<", self.m_filter)
         R(r"as core::iter::Iterator>::map::<", self.m_map)
+        R(r"as core::iter::Iterator>::flat_map::<", self.m_flat_map)
         R(r"as core::iter::Iterator>::filter_map::<", lambda ip, fv, st, d, t, n, a, dty: ("it", "filtermap", self.as_it(ip, st, a[0]), a[1]) if self.as_it(ip, st, a[0])[0] == "it" else TOP)
         R(r"core::iter::once::<", lambda ip, fv, st, d, t, n, a, dty: ("it", "once", a[0], 0))
         R(r"as core::iter::Iterator>::chain::<", self.m_chain)
         R(r"as core::iter::Iterator>::cloned::<|as core::iter::Iterator>::copied::<", self.m_cloned)
         R(r"core::slice::<impl \[.*\]>::(iter|iter_mut)$", self.m_slice_iter)
-        R(r"core::slice::<impl \[.*\]>::chunks(_exact)?$", self.m_chunks)
+        R(r"core::slice::<impl \[.*\]>::chunks(_exact)?(_mut)?$", self.m_chunks)
         R(r"core::slice::<impl \[.*\]>::len$", self.m_len)
         R(r"core::slice::<impl \[.*\]>::(first|first_mut|last|last_mut)$", self.m_first_last)
         R(r"core::slice::<impl \[.*\]>::is_empty$", lambda ip, fv, st, d, t, n, a, dty: I(0, 1))
@@ -53,6 +54,7 @@ class Models(Simd):
         R(r"core::ops::Try>::branch$", self.m_try_branch)
         R(r"core::option::Option(::)?<.*>::(map|ok_or|ok_or_else|and_then|is_some|is_none|unwrap_or|unwrap_or_default|copied|cloned|as_ref)(::<.*>)?$|"
           r"core::result::Result(::)?<.*>::(map|map_err|ok|is_ok|is_err|and_then|unwrap_or|unwrap_or_default)(::<.*>)?$", self.m_enum_comb)
+        R(r"^core::bool::<impl bool>::(then|then_some)(::<.*>)?$", self.m_bool_then)
         R(r"core::ops::FromResidual<.*>>::from_residual$", self.m_from_residual)
         R(r"core::hint::black_box", lambda ip, fv, st, d, t, n, a, dty: a[0])
         R(r"core::mem::swap", self.m_swap)
@@ -83,6 +85,7 @@ class Models(Simd):
         R(r"alloc::vec::Vec(::)?<.*>::push$", self.m_vec_push)
         R(r"alloc::vec::Vec(::)?<.*>::len$", self.m_len)
         R(r"as core::iter::Iterator>::collect::<.*Vec<", self.m_collect_vec)
+        R(r"as core::iter::Iterator>::unzip::<.*Vec<.*Vec<", self.m_unzip_vecs)
         R(r"alloc::vec::Vec<.*> as core::ops::Index(Mut)?<usize>>::index(_mut)?$", self.m_index_range)
         R(r"^core::slice::<impl \[.*\]>::split_at(_mut)?$", self.m_split_at)
         R(r"as core::iter::Iterator>::fold::<", self.m_fold)
@@ -616,6 +619,35 @@ class Models(Simd):
         a = [self.as_it(ip, st, a[0])] + list(a[1:])
         return ("it", "filter", a[0], a[1] if len(a) > 1 else None) if a[0][0] == "it" else TOP
 
+    def m_flat_map(self, ip, fv, st, depth, t, n, a, dty):
+        """iter.flat_map(f) for an outer iterator of exactly known short length whose inner iterators have exactly known lengths: the items are
+        materialised in order (the closures are pure in every abstract domain used here); anything else stays an unknown iterator"""
+        it = self.as_it(ip, st, a[0])
+        if it[0] != "it":
+            return TOP
+        lo, hi = self.iter_len(ip, st, it)
+        if lo != hi or hi > 64:
+            return TOP
+        items, cur = [], it
+        for _ in range(hi):
+            item, new = self.step(ip, st, cur)
+            if item[0] != "en" or len(item[1]) != 1 or item[1][0][0] != 1:
+                return TOP
+            cur = new if new is not None else cur
+            sub = self.as_it(ip, st, ip.deconst(self.apply_closure(ip, st, a[1], [item[1][0][1][0]])))
+            if sub[0] != "it":
+                return TOP
+            slo, shi = self.iter_len(ip, st, sub)
+            if slo != shi or shi > 64 or len(items) + shi > 1024:
+                return TOP
+            for _ in range(shi):
+                x, nsub = self.step(ip, st, sub)
+                if x[0] != "en" or len(x[1]) != 1 or x[1][0][0] != 1:
+                    return TOP
+                items.append(x[1][0][1][0])
+                sub = nsub if nsub is not None else sub
+        return ("it", "vals", ("arr", tuple(items)), I(0), I(len(items)))
+
     def m_map(self, ip, fv, st, depth, t, n, a, dty):
         a = [self.as_it(ip, st, a[0])] + list(a[1:])
         return ("it", "map", a[0], a[1]) if a[0][0] == "it" else TOP
@@ -681,6 +713,20 @@ class Models(Simd):
                     outs.append((1, (v,)))
             return ("en", tuple(outs)) if outs else ip.default_value(dty)
         return v
+
+    def m_unzip_vecs(self, ip, fv, st, depth, t, n, a, dty):
+        """iter.unzip() into (Vec<A>, Vec<B>): the collected pairs, split component-wise (exact for short exact iterators, a summary otherwise)"""
+        it = self.as_it(ip, st, a[0])
+        v = self.collect_vec(ip, st, it, None)
+
+        def comp(x, i):
+            x = ip.deconst(x)
+            return x[1][i] if x is not None and x[0] == "st" and len(x[1]) == 2 else TOP
+        if v[0] == "arr":
+            return ("st", (("arr", tuple(comp(x, 0) for x in v[1])), ("arr", tuple(comp(x, 1) for x in v[1]))))
+        if v[0] == "vec":
+            return ("st", (("vec", comp(v[1], 0) if v[1] is not None else None, v[2], v[3]), ("vec", comp(v[1], 1) if v[1] is not None else None, v[2], v[3])))
+        return NotImplemented
 
     def iter_len(self, ip, st, it):
         """(lo, hi) bounds on the number of items the iterator still yields"""
@@ -1148,6 +1194,20 @@ class Models(Simd):
         # any other conversion: a local impl is interpreted, an external one gets the most general value of its type (do_call)
         return NotImplemented
 
+    def m_bool_then(self, ip, fv, st, depth, t, n, a, dty):
+        """b.then(f) = if b { Some(f()) } else { None }; then_some(v) likewise with an eager value"""
+        b = ip.deconst(a[0])
+        lazy = not re.search(r"then_some", n)
+        if b is None or b[0] != "i":
+            b = I(0, 1)
+        outs = []
+        if b[1] <= 0:
+            outs.append((0, ()))
+        if b[2] >= 1:
+            v = self.apply_closure(ip, st, a[1], []) if lazy else a[1]
+            outs.append((1, (v,)))
+        return ("en", tuple(outs))
+
     def m_enum_comb(self, ip, fv, st, depth, t, n, a, dty):
         is_res = "result::Result" in n
         mm = re.search(r">::(map|map_err|ok_or|ok_or_else|and_then|is_some|is_none|is_ok|is_err|ok|unwrap_or|unwrap_or_default|copied|cloned|as_ref)(::<.*>)?$", n)
@@ -1386,7 +1446,7 @@ class Models(Simd):
                 st.frames[d[1]][d[2]] = ip.write_path(st.frames[d[1]].get(d[2], TOP), d[3], new)
                 return ("st", ())
             if v[0] == "vec":
-                new = ("vec", join(v[1], a[1]) if v[1] is not None else a[1], v[2] + 1, v[3] + 1)
+                new = ("vec", join(v[1], a[1]) if v[1] is not None else a[1], min(v[2] + 1, 2**32), min(v[3] + 1, 2**32))       # 2^32 stands for "unbounded" in every summary
                 st.frames[d[1]][d[2]] = ip.write_path(st.frames[d[1]].get(d[2], TOP), d[3], new)
         return ("st", ())
 
